@@ -24,6 +24,8 @@ func (o Op) String() string {
 		return fmt.Sprintf("%s(k%d)", o.K, o.Key)
 	case "geta":
 		return fmt.Sprintf("geta(k%d,%d)", o.Key, o.Size)
+	case "delbucket":
+		return fmt.Sprintf("delbucket(#%d)", o.ID)
 	}
 	return o.K
 }
